@@ -149,13 +149,20 @@ func (e *Expr) Eval(keys map[string]bool) bool {
 func (e *Expr) Render(r *Rng) string {
 	switch e.Op {
 	case "key":
+		out := e.Key
 		switch r.Intn(3) {
 		case 0:
-			return `"` + e.Key + `"`
+			out = `"` + e.Key + `"`
 		case 1:
-			return `'` + e.Key + `'`
+			out = `'` + e.Key + `'`
 		}
-		return e.Key
+		if r.Chance(1, 4) {
+			out = "(" + out + ")" // a parenthesised single term is legal and means the same
+			if r.Chance(1, 4) {
+				out = "( " + out + " )"
+			}
+		}
+		return out
 	}
 	sep := " || "
 	if e.Op == "and" {
